@@ -236,10 +236,16 @@ def tfsf_part(ctx, c, scr, rng):
 
 # ------------------------------------------------------------ ModePlaneSource in a conductive + dispersive core (oracle only)
 def mode_forced(seed, k=0):
+    """k even: core conductive AND dispersive, scalar permeability (the mode profile must stay real);
+    k odd: core conductive only (complex, lossy mode profile -> quadrature injection) and a small MAGNETIC block elsewhere
+    in the scene, so that the permeability is stored as an array"""
     n = 20 + 2 * ((seed + k) % 2)
-    return dict(mode="modesrc", shape=[6, n, n], steps=6, axis=0, direction="+" if (seed + k) % 2 == 0 else "-",
-                core={"kind": "lorentz" if k % 2 == 0 else "drude", "w0": 6.0e15, "wp": 2.0e15, "gamma": 1.0e14, "de": 1.5, "eps_inf": 6.0,
-                      "sigma": 3.0e4, "size": 8}, wavelength=1.0e-6, mode_index=0, seed=500 + seed + k)
+    lossy_only = k % 2 == 1
+    return dict(mode="modesrc", shape=[8 if lossy_only else 6, n, n], steps=6, axis=0, direction="+" if (seed + k) % 2 == 0 else "-",
+                core={"kind": "none" if lossy_only else ("lorentz" if k % 4 == 0 else "drude"), "w0": 6.0e15, "wp": 2.0e15, "gamma": 1.0e14,
+                      "de": 1.5, "eps_inf": 6.0, "sigma": 3.0e4, "size": 8},
+                magnet=({"pos": [5, 3, 4], "size": [2, 3, 3], "mu": 1.6} if lossy_only else None),
+                wavelength=1.0e-6, mode_index=0, seed=500 + seed + k)
 
 
 def mode_scene(c, complex_fields):
@@ -257,9 +263,15 @@ def mode_scene(c, complex_fields):
                 f.PoyntingFluxDetector(name="det2_poynting", dtype=jnp.float64, plot=False, direction="+", partial_grid_shape=(1, None, None))]
         cons = [core.place_at_center(vol), src.set_grid_coordinates(axes=0, sides="-", coordinates=2),
                 dets[2].set_grid_coordinates(axes=0, sides="-", coordinates=4)]
+        extra_objs = []
+        if c.get("magnet"):
+            mg = f.UniformMaterialObject(partial_grid_shape=tuple(c["magnet"]["size"]), name="magnet",
+                                         material=L.dispersive_material(f, {"kind": "none", "eps_inf": 1.0, "mu": c["magnet"]["mu"]}))
+            cons.append(mg.set_grid_coordinates(axes=(0, 1, 2), sides=("-", "-", "-"), coordinates=tuple(c["magnet"]["pos"])))
+            extra_objs.append(mg)
         for d in dets[:2]:
             cons += list(d.same_position_and_size(vol))
-        return [core, src] + dets, cons
+        return [core] + extra_objs + [src] + dets, cons
     faces = {"min_x": "periodic", "max_x": "periodic", "min_y": "none", "max_y": "none", "min_z": "none", "max_z": "none"}
     dt = L._dt(dict(widths=None))
     return Y.build(c["shape"], faces, time=(c["steps"] + 0.01) * dt, gradient=None, extra_fn=extra, complex_fields=complex_fields)
@@ -280,10 +292,12 @@ def mode_oracle(c, info=None):
         info["profile_complex_dtype"] = bool(jnp.iscomplexobj(src._E))
         info["conductive"] = scr.arrays.electric_conductivity is not None
         info["dispersive"] = scr.arrays.dispersive_c1 is not None
+        mu = scr.arrays.inv_permeabilities
+        info["array_permeability"] = bool(hasattr(mu, "ndim") and mu.ndim > 0)
     if not jnp.iscomplexobj(ac.fields.E):
         return "use_complex_fields=True did not allocate complex fields"
     for nm in ("E", "H"):
-        d = cmp_complex_real(f"mode source in a conductive dispersive core: final {nm}", getattr(ac.fields, nm), getattr(ar.fields, nm))
+        d = cmp_complex_real(f"mode source scene (lossy core): final {nm}", getattr(ac.fields, nm), getattr(ar.fields, nm))
         if d:
             return d
     for name, st in ar.detector_states.items():
@@ -298,8 +312,9 @@ def one_mode_case(ctx, c):
     info = {}
     d = mode_oracle(c, info)
     ctx.impl_property_evals += 1
-    ctx.case(nontrivial=("modesrc", c["seed"]) if info.get("on") and info.get("conductive") and info.get("dispersive") else None,
-             mode="mode-source", mode_profile_complex_dtype=info.get("profile_complex_dtype"), core=c["core"]["kind"])
+    ctx.case(nontrivial=("modesrc", c["seed"]) if info.get("on") and info.get("conductive") else None,
+             mode="mode-source", mode_profile_complex_dtype=info.get("profile_complex_dtype"), core=c["core"]["kind"],
+             mode_scene_array_permeability=info.get("array_permeability"), mode_scene_dispersive=info.get("dispersive"))
     if d:
         ctx.violation(c, d)
 
@@ -375,7 +390,7 @@ def run(ctx):
         have_solver = False
         ctx.notes.append("tidy3d mode solver not importable: ModePlaneSource scene skipped")
     if have_solver:
-        for k in range(ctx.scale(1, 3)):
+        for k in range(ctx.scale(2, 6)):
             one_mode_case(ctx, mode_forced(ctx.seed, k))
 
 
